@@ -10,7 +10,10 @@ Layer 1, spec/ModelCache.tla (the model as state: successor / predecessor bags, 
 Layer 2, end to end: for the corpus and fragment-F cases every ordered split of the job set into 2-3 chunks
   (exhaustive over split points for small sets, seeded otherwise, including an empty later chunk) is learned through
   pv_streams_to_puml_files with -om / -im at every boundary; TLC decides language equality at loop bound 2 between
-  the final diagram and the one-shot diagram (spec/JobDef.tla)."""
+  the final diagram and the one-shot diagram (spec/JobDef.tla).
+Layer 3, the documented procedure through the command line with several workflows at once: otel2puml -om on one part of an
+  OTel data set, otel2puml -im <every saved model> -om on the rest, against otel2puml on all the data; per workflow equal
+  alphabets and languages (TLC)."""
 import itertools
 
 import jobdef
@@ -210,10 +213,95 @@ def layer2(chk, tier, seed, stats):
     return len(cases), len(pairs), ntr, sum(1 for _di, s in owner if s is not None and len(s) >= 2 and s[-1])
 
 
+# ------------------------------------------------------------------ layer 3: the documented procedure through the CLI
+def cli_case(args):
+    """several workflows at once, as the README describes it: otel2puml -om on the first part of the data, then otel2puml
+    -im <every saved model> -om on the rest (a fresh database), against otel2puml on all the data"""
+    import os
+    import random
+    import pipeline
+    k, seed, base = args
+    rnd = random.Random(repr(("c04cli", seed, k)))
+    d = os.path.join(base, "case%d" % k)
+    docs = pipeline.dataset(rnd, nwf=(2, 3))
+    idx = list(range(len(docs)))
+    rnd.shuffle(idx)
+    cut = rnd.randrange(1, len(docs))
+    parts = {"all": docs, "c1": [docs[i] for i in sorted(idx[:cut])], "c2": [docs[i] for i in sorted(idx[cut:])]}
+    for name, ds in parts.items():
+        os.makedirs(os.path.join(d, name))
+        pipeline.write_case(os.path.join(d, name), ds, k % 2 == 1, None)
+    runs = {"ref": pipeline.cli(["-o", os.path.join(d, "ref"), "otel2puml", "-c", os.path.join(d, "all", "configA.yaml")], d),
+            "r1": pipeline.cli(["-o", os.path.join(d, "o1"), "otel2puml", "-c", os.path.join(d, "c1", "configA.yaml"), "-om"], d)}
+    models = sorted(os.path.join(d, "o1", f) for f in os.listdir(os.path.join(d, "o1")) if f.endswith("_model.json")) \
+        if os.path.isdir(os.path.join(d, "o1")) else []
+    if k % 3 == 2:
+        models.reverse()
+    im = [x for m in models for x in ("-im", m)]
+    runs["r2"] = pipeline.cli(["-o", os.path.join(d, "o2"), "otel2puml", "-c", os.path.join(d, "c2", "configA.yaml"), "-om"] + im, d)
+    p1, p2 = pipeline.read_pumls(os.path.join(d, "o1")), pipeline.read_pumls(os.path.join(d, "o2"))
+    final = dict(p1)
+    final.update(p2)
+    return {"k": k, "runs": runs, "ref": pipeline.read_pumls(os.path.join(d, "ref")), "final": final, "first": p1, "second": p2,
+            "models": [os.path.basename(m) for m in models], "split": [sorted(idx[:cut]), sorted(idx[cut:])], "documents": docs}
+
+
+def layer3(chk, tier, seed, stats):
+    import os
+    import shutil
+    import tempfile
+    from concurrent.futures import ThreadPoolExecutor
+    n = 6 if tier == "quick" else 60
+    base = tempfile.mkdtemp(prefix="c04cli-", dir=learner.WORK if os.path.isdir(learner.WORK) else None)
+    try:
+        with ThreadPoolExecutor(max_workers=6) as ex:
+            cases = list(ex.map(cli_case, [(k, seed, base) for k in range(n)]))
+    finally:
+        shutil.rmtree(base, ignore_errors=True)
+    pairs, owner = [], []
+    for c in cases:
+        key = "cli case %d (seed %d): otel2puml -om on files %s, then -im %s on files %s" % (
+            c["k"], seed, c["split"][0], c["models"], c["split"][1])
+        detail = {"split": c["split"], "models_passed": c["models"], "runs": c["runs"], "documents": c["documents"],
+                  "one_shot": c["ref"], "first_run": c["first"], "second_run": c["second"]}
+        cls = lambda r: r["exception"].split(":")[0].strip()      # noqa: E731
+        rcs = {k: r["rc"] for k, r in c["runs"].items()}
+        if rcs["ref"] != 0:
+            # the learner refuses the whole data set: the chunked procedure must end in the same refusal
+            if all(rcs[k] == 0 for k in ("r1", "r2")):
+                chk.violation(key, "cli:outcome", dict(detail, one_shot="refused", chunked="diagrams"))
+            continue
+        if rcs["r1"] != 0 or rcs["r2"] != 0:
+            bad = c["runs"]["r1"] if rcs["r1"] != 0 else c["runs"]["r2"]
+            chk.violation(key, "cli:outcome", dict(detail, one_shot="diagrams", chunked="failed: " + cls(bad)))
+            continue
+        if set(c["ref"]) != set(c["final"]):
+            chk.violation(key, "cli:workflows", dict(detail, one_shot_workflows=sorted(c["ref"]), chunked_workflows=sorted(c["final"])))
+            continue
+        for wf in sorted(c["ref"]):
+            try:
+                a, b = puml.parse(c["ref"][wf]), puml.parse(c["final"][wf])
+            except puml.PumlError as e:
+                chk.violation(key, "cli:unparsable", dict(detail, workflow=wf, error=str(e)))
+                continue
+            if puml.events_of(a) != puml.events_of(b):
+                chk.violation(key, "cli:alphabet", dict(detail, workflow=wf, difference=sorted(puml.events_of(a) ^ puml.events_of(b))))
+                continue
+            pairs.append((a, b))
+            owner.append((key, wf, detail))
+    verdicts, ntr = le.lang_compare(pairs, stats=stats) if pairs else ([], 0)
+    for v, (key, wf, detail) in zip(verdicts, owner):
+        if v is not None:
+            chk.violation(key, "cli:language", dict(detail, workflow=wf, info=v))
+    return len(cases), len(pairs), ntr
+
+
 def run(chk, tier, seed):
     st1, gen1, replayed, steps = layer1(chk, tier)
     stats = jobdef.Stats()
     ncases, npairs, ntr, nontriv = layer2(chk, tier, seed, stats)
+    ncli, nclipairs, ntr3 = layer3(chk, tier, seed, stats)
+    ntr += ntr3
     if DRIFT:
         print("MODEL-DRIFT (not a verdict): the staleness flag of the real Event objects differs from spec/ModelCache.tla "
               "in %d replay steps, e.g. %r" % (len(DRIFT), DRIFT[0]))
@@ -225,9 +313,13 @@ def run(chk, tier, seed):
            "rule": "layer 1: every history of <= 4 (thorough 5) ingest/read/save/load actions over two job sets, replayed on "
                    "real Event objects with the projection compared after every action; layer 2: corpus + F (exhaustive up "
                    "to the tier's bound) + samples, every ordered split into 2-3 chunks for small job sets (seeded "
-                   "otherwise) and the empty later chunk; non-trivial = split whose last chunk is not empty",
+                   "otherwise) and the empty later chunk; layer 3: seeded OTel data sets of 2-3 workflows split into two parts, "
+                   "python -m tel2puml otel2puml -om on the first part, then otel2puml -im <all saved models> -om on the second "
+                   "(fresh database), compared per workflow with otel2puml on all the data; "
+                   "non-trivial = split whose last chunk is not empty",
            "model_histories_replayed": replayed, "model_replay_steps_compared": steps, "chunked_learner_runs": ncases,
-           "pairs_compared_by_tlc": npairs, "exhaustive": False}
+           "pairs_compared_by_tlc": npairs, "cli_multi_workflow_cases": ncli, "cli_pairs_compared_by_tlc": nclipairs,
+           "exhaustive": False}
     return cov, ["language equality at loop bound 2", "job sets above the cap are skipped",
                  "the staleness flag is read from Event._update_since_logic_gate_tree when that attribute exists"]
 
